@@ -476,6 +476,8 @@ class System:
         if isinstance(m, tuple):
             arguments, resnorm = m
             log.info(f'residual norm: {resnorm:.1e}')
+            if numpy.isnan(resnorm):
+                raise SolverError('residual norm is not a number')
             if resnorm > tol > 0:
                 raise SolverError(f'failed to reach desired tolerance of {tol:.0e}')
         else:
@@ -486,7 +488,9 @@ class System:
                 log.info(f'residual norm: {resnorm:.1e}')
             resnorm0 = resnorm
             iiter = 0
-            while iiter < miniter or resnorm > tol:
+            while iiter < miniter or not resnorm <= tol:
+                if numpy.isnan(resnorm):
+                    raise SolverError('residual norm is not a number')
                 if maxiter is not None and iiter >= maxiter:
                     raise SolverError(f'failed to converge in {maxiter} iterations')
                 iiter += 1
